@@ -43,10 +43,14 @@
   non-flow multipart replies and to flow-mods under any condition that makes the flow-mod decoder local); building blocks
   of that condition: `C10c_decodeaction_local_covered`, `C10c_action_loop_local` (reachable-offset invariant),
   `C10c_instructions_local_partial`, `InstrActions_unmarshalP_loc_inv`.
-  Left open: assembling these into `FlowMod.unmarshal` / `FlowStats` locality under one decidable in-frame predicate
-  (DecodeInstr dispatch + the instruction loops), the remaining action kinds (set-field, Nicira), packet-out.
+  Fifth round: `FlowModInFrame t` — the in-frame check (`instrsOK` / `instrOK` / `actionsOK`, Bool-valued walks of the
+  instruction and action lists that test the bounds the Go code omits), evaluated on `Slice.exact t.bytes`, i.e. on the visible
+  bytes alone — and `C10c_parse_local3`: Parse is local on every good frame, where a flow-mod is good iff it passes the
+  check.  Exceptions that remain: (a) TLV table reply with body < 16, (b) flow-mods failing `FlowModInFrame` (both with
+  counterexamples), (c) multipart replies of type flow (same loop; the positive statement for `FlowStats` is not assembled
+  yet), plus uncovered action kinds (set-field, Nicira) inside flow-mods.
 -/
-import OFV.Lemmas.Local7
+import OFV.Lemmas.Local8
 namespace OFV.Props.C10c
 open OFV OFV.Go OFV.Model
 
@@ -508,5 +512,42 @@ theorem C10c_instructions_local_partial (recv : V) (s t : Slice) (hs : s.WF) (ht
     InstrHeader_unmarshal4_loc_partial recv haw⟩
 
 example : 24 ≤ (Slice.exact ([0, 2, 0, 24] ++ zeros 20)).len := by decide
+
+/-! ### fifth round -/
+
+/-- the flow-mod decoder as Parse calls it: on agreeing slices whose VISIBLE bytes pass the in-frame check (every instruction
+    header, goto-table, write-metadata and every covered action that the loops reach lies inside the frame), what the
+    stream's recycled buffer holds behind the frame — and how large it is — cannot influence the decoded flow-mod -/
+theorem C10c_flowmod_local_inframe (s t : Slice) (hs : s.WF) (ht : t.WF) (h : s.Agree t) (hok : FlowModInFrame t) :
+    FlowMod.unmarshal flowModRecv s = FlowMod.unmarshal flowModRecv t := FlowMod_loc_visible ⟨hs, ht, h⟩ hok
+
+/-- a conformant flow-mod (88 bytes: empty match, goto-table 5, apply-actions [output port 1]) passes the check, whatever
+    follows it in the buffer -/
+theorem C10c_flowmod_conformant_inframe (tail : Bytes) : FlowModInFrame ⟨fmGoodFrame ++ tail, 88⟩ := fmGoodFrame_inframe tail
+
+/-- the over-read frame of `C10c_parse_flowmod_not_local_counterexample` fails the check -/
+theorem C10c_flowmod_cex_not_inframe : ¬ FlowModInFrame fmCexT := fmCex_not_inframe
+
+/-- FINAL STATEMENT (third form).  Parse is local — the delivered message depends neither on what the stream's recycled
+    buffer holds behind the frame, nor on its capacity, nor on the nesting bounds derived from it — on every frame of at
+    least 8 bytes EXCEPT: (a) TLV table replies with Length < 32 (`C10c_parse_tlvtablereply_not_local_counterexample`);
+    (b) flow-mods whose visible bytes fail `FlowModInFrame` (`C10c_parse_flowmod_not_local_counterexample`,
+    `C10c_parse_flowmod_capacity_dependent_counterexample`); (c) multipart replies of type flow
+    (`C10c_parse_multipart_flowstats_not_local_counterexample`); (d) experimenter frames cut before their Length field;
+    a bundle-add is good when its embedded message is. -/
+theorem C10c_parse_local3 (n : Nat) (s t : Slice) (hs : s.WF) (ht : t.WF) (h : s.Agree t)
+    (hg : GoodFrame2 FlowModInFrame n t) (d d' : Nat) : parse d s = parse d' t :=
+  parse_good3_loc n ⟨hs, ht, h⟩ hg d d'
+
+/-- the conformant flow-mod is a good frame, with any stale bytes behind it -/
+example (tail : Bytes) : GoodFrame2 FlowModInFrame 1 ⟨fmGoodFrame ++ tail, 88⟩ := by
+  unfold GoodFrame2
+  refine ⟨by show 8 ≤ 88; decide, ?_⟩
+  intro tb htb
+  have : tb = 14 := by
+    have e : (Slice.mk (fmGoodFrame ++ tail) 88).byteAt 1 = .ok 14 := rfl
+    rw [e] at htb; cases htb; rfl
+  subst this
+  exact ⟨fun _ => fmGoodFrame_inframe tail, fun h => absurd h (by decide), fun h => absurd h (by decide)⟩
 
 end OFV.Props.C10c
